@@ -288,3 +288,40 @@ Proof.
     + destruct Hshape as [[e ->] | [l ->]]; [discriminate |].
       destruct (forallb (elem_ok s) l); [| discriminate]. inversion Ev; exact I.
 Qed.
+
+(* ---------- device life cycle: the objectList updates of add_object / delete_object keep the invariant *)
+Definition elems (v : val) : list elem :=
+  match v with VArr _ l => l | VPyList l => l | VLst l => l | _ => [] end.
+
+Lemma arr_append_wf : forall v x v', arr_append v x = Ok v' -> wf_val v' /\ elems v' = elems v ++ [x].
+Proof.
+  intros v x v' H. destruct v as [| e | l | n l | l]; cbn [arr_append] in H; try discriminate; inversion H; subst; cbn.
+  - split; [exact I | reflexivity].
+  - split; [| reflexivity]. unfold zlength. rewrite app_length. cbn. lia.
+Qed.
+
+Lemma find_idx_lt : forall x l f i, find_idx x l f = Ok i -> (i < length l)%nat.
+Proof.
+  intros x l. induction l as [| y r IH]; intros f i H; destruct f as [| f]; cbn [find_idx] in H; try discriminate.
+  destruct (elem_eqb x y).
+  - inversion H; cbn; lia.
+  - destruct (find_idx x r f) as [j |] eqn:E; cbn [bind] in H; [| discriminate]. inversion H; subst. cbn. apply IH in E. lia.
+Qed.
+Lemma remove_nth_length : forall l i, (i < length l)%nat -> S (length (remove_nth l i)) = length l.
+Proof.
+  induction l as [| a r IH]; intros [| i] H; cbn in *; try lia. rewrite IH; lia.
+Qed.
+
+Lemma arr_remove_wf : forall v x v', wf_val v -> arr_remove v x = Ok v' ->
+  wf_val v' /\ S (length (elems v')) = length (elems v).
+Proof.
+  intros v x v' Hwf H. destruct v as [| e | l | n l | l]; cbn [arr_remove] in H; try discriminate.
+  destruct (find_idx x l (Z.to_nat n)) as [i |] eqn:E; cbn [bind] in H; [| discriminate]. inversion H; subst.
+  apply find_idx_lt in E. pose proof (remove_nth_length l i E) as HL. cbn [wf_val elems] in *.
+  split; [unfold zlength in *; lia | exact HL].
+Qed.
+
+Theorem object_list_invariant :
+  (forall v x v', arr_append v x = Ok v' -> wf_val v' /\ elems v' = elems v ++ [x]) /\
+  (forall v x v', wf_val v -> arr_remove v x = Ok v' -> wf_val v' /\ S (length (elems v')) = length (elems v)).
+Proof. split; [exact arr_append_wf | exact arr_remove_wf]. Qed.
